@@ -560,7 +560,18 @@ func runC20(c *Ctx) {
 					}
 					db := factsDBAt(x.Block())
 					ls := "len(" + sym(s) + ")"
-					c.judge(db.has(sym(n), token.LSS, ls), "R-TRUNC-PREFIX", "mstr.Trunc:backs up only when cutting", x.Pos(), "under n < len(s)", "the cut point is moved back on a path where n < len(s) is not known: for n ≥ len(s) the whole string must be returned, but a string ending in a multi-byte character loses it")
+					cutting := db.has(sym(n), token.LSS, ls)
+					// … or the clamped start min(n, len(s)) is known to differ from len(s), which is the same thing
+					for _, cm := range cmpsAt(x.Block()) {
+						for _, pr := range [][2]ssa.Value{{cm.X, cm.Y}, {cm.Y, cm.X}} {
+							mn, ok1 := isBuiltinCall(pr[0], "min")
+							ln, ok2 := isBuiltinCall(pr[1], "len")
+							if ok1 && ok2 && ln.Call.Args[0] == ssa.Value(s) && inClosure(mn, map[ssa.Value]bool{}) && (cm.Op == token.NEQ || (cm.Op == token.LSS && pr[0] == cm.X) || (cm.Op == token.GTR && pr[0] == cm.Y)) {
+								cutting = true
+							}
+						}
+					}
+					c.judge(cutting, "R-TRUNC-PREFIX", "mstr.Trunc:backs up only when cutting", x.Pos(), "under n < len(s)", "the cut point is moved back on a path where n < len(s) is not known: for n ≥ len(s) the whole string must be returned, but a string ending in a multi-byte character loses it")
 				}
 			case *ssa.Index:
 				// s[h-1] on a string
@@ -585,6 +596,7 @@ func runC20(c *Ctx) {
 	if fn := P.Func("mstr", "", "CompareNatural"); fn != nil {
 		c.sawFn(fnName(fn))
 		var okVal func(v ssa.Value, seen map[ssa.Value]bool) (bool, string)
+		seenFn := map[*ssa.Function]bool{}
 		okVal = func(v ssa.Value, seen map[ssa.Value]bool) (bool, string) {
 			if seen[v] {
 				return true, ""
@@ -597,6 +609,53 @@ func runC20(c *Ctx) {
 				}
 				return false, "constant outside {-1,0,1}"
 			case *ssa.Call:
+				if x.Call.StaticCallee() == nil && !x.Call.IsInvoke() {
+					// a comparison chosen at run time among named functions (compare := cmp.Compare; if … { compare = f })
+					var fs []*ssa.Function
+					var leaves func(w ssa.Value, d int) bool
+					leaves = func(w ssa.Value, d int) bool {
+						if d > 4 {
+							return false
+						}
+						switch y := w.(type) {
+						case *ssa.Function:
+							fs = append(fs, y)
+							return true
+						case *ssa.Phi:
+							for _, e := range y.Edges {
+								if !leaves(e, d+1) {
+									return false
+								}
+							}
+							return true
+						case *ssa.ChangeType:
+							return leaves(y.X, d+1)
+						}
+						return false
+					}
+					if leaves(x.Call.Value, 0) && len(fs) > 0 {
+						for _, f := range fs {
+							o := origin(f)
+							inRange := o.Pkg != nil && (o.Pkg.Pkg.Path() == "cmp" || o.Pkg.Pkg.Path() == "strings" || o.Pkg.Pkg.Path() == "bytes") && o.Name() == "Compare"
+							if !inRange && o.Pkg == fn.Pkg && o.Blocks != nil && !seenFn[o] {
+								seenFn[o] = true
+								inRange = true
+								allInstrs(o, func(in2 ssa.Instruction) {
+									if ret, ok := in2.(*ssa.Return); ok && len(ret.Results) == 1 && inRange {
+										if ok2, _ := okVal(ret.Results[0], seen); !ok2 {
+											inRange = false
+										}
+									}
+								})
+								delete(seenFn, o)
+							}
+							if !inRange {
+								return false, "result of " + o.Name() + " (one of the functions the call can reach)"
+							}
+						}
+						return true, ""
+					}
+				}
 				if cal := x.Call.StaticCallee(); cal != nil {
 					o := origin(cal)
 					if o.Pkg != nil && o.Pkg.Pkg.Path() == "cmp" && o.Name() == "Compare" {
@@ -604,6 +663,24 @@ func runC20(c *Ctx) {
 					}
 					if o == fn {
 						return true, ""
+					}
+					// strings.Compare and bytes.Compare answer in {-1,0,1} too
+					if o.Pkg != nil && (o.Pkg.Pkg.Path() == "strings" || o.Pkg.Pkg.Path() == "bytes") && o.Name() == "Compare" {
+						return true, ""
+					}
+					// a helper of the same package all of whose results are in range
+					if o.Pkg == fn.Pkg && o.Blocks != nil && o.Signature.Results().Len() == 1 && !seenFn[o] {
+						seenFn[o] = true
+						good, why := true, ""
+						allInstrs(o, func(in2 ssa.Instruction) {
+							if ret, ok := in2.(*ssa.Return); ok && len(ret.Results) == 1 && good {
+								if ok2, w := okVal(ret.Results[0], seen); !ok2 {
+									good, why = false, "helper "+o.Name()+": "+w
+								}
+							}
+						})
+						delete(seenFn, o)
+						return good, why
 					}
 				}
 				return false, "result of " + x.Call.Value.Name()
